@@ -38,11 +38,11 @@ variants of the code are modelled; the check probes which one the tree follows; 
 the fixes are kept as labelled regressions at the end):
 * IP: the Specs state `Resolution.type` (`ipv4` / `ipv6`) for every entity; `IpAddressModel.get_resolution` built
   `{'value', 'score': str(None)}` — no `type` key at all.  Finding `spec-field:IpAddress:Resolution.type:absent`,
-  fixed by `findings/specs-fields/ip-resolution-type.diff`.
+  fixed by /repo a7314f077 (`findings/specs-fields/ip-resolution-type.diff`).
 * boolean: the Specs state the extractor's score (`1.0`, `0.5`, `0.64` …); `ChoiceParser.parse` built a NEW
   `ChoiceExtractDataResult(ext_result.data)` and read its default score, so `recognize_boolean` reported `0.0` for every
   entity.  Finding `spec-field:Boolean:Resolution.score:0.0`, fixed by
-  `findings/specs-fields/boolean-score-from-extractor.diff`.
+  /repo aeefbdd20 (`findings/specs-fields/boolean-score-from-extractor.diff`).
 Neither field is compared by the repository's runner, which is why its spec suite passed all along.
 -/
 namespace RTV.C19
@@ -130,7 +130,7 @@ theorem spec_field_counts :
 
 /-! ### regressions: the code before the two fixes (`ipModelRun … typed := false`, `genEnvPreFix3`) -/
 
-/-- REGRESSION (before `ip-resolution-type.diff`): every stated field of the English IP cases agreed except
+/-- REGRESSION (before /repo a7314f077, `ip-resolution-type.diff`): every stated field of the English IP cases agreed except
 `Resolution.type` … -/
 theorem prefix_spec_ip_cases_partial :
     FamilyAgrees [kType] (fun q => some (ipModelRun genSeqEnv false false q)) specCases_ipEn := by
@@ -153,7 +153,7 @@ theorem prefix_spec_ip_zh : FamilyAgrees [kType] (fun q => some (ipModelRun genS
   have h : ipPreFixOK genSeqEnv true specCases_ipZh = true := by rw [← fastSeqEnv_eq]; exact spec_ip_zh_prefix_fast
   exact ipPreFixOK_spec _ _ _ h
 
-/-- REGRESSION (before `boolean-score-from-extractor.diff`): every stated field of the boolean cases agreed except
+/-- REGRESSION (before /repo aeefbdd20, `boolean-score-from-extractor.diff`): every stated field of the boolean cases agreed except
 `Resolution.score` … -/
 theorem prefix_spec_boolean_cases_partial :
     FamilyAgrees [kScore] (boolModelRun RTV.Choice.genEnvPreFix3) specCases_bool := by
